@@ -6,7 +6,7 @@ SIMHOST="deterministic whole-system simulation (real NodeHosts, seeded task sche
 L0="deterministic component simulation against a reference model with fault injection"
 checks={
  "C01":("exploration","simhost","porcupine linearizability check of the recorded client history (writes/ReadIndex+ReadLocalNode on any replica) under loss, delay, reordering, partitions, transfers, crash+restart; no duplication", SIMHOST+" + porcupine"),
- "C02":("exploration","simhost","every entry delivered to any user state machine is compared with what any other replica applied at that index; gap-free increasing apply order; equal state at equal applied index; the code's own log/apply invariant panics are violations", SIMHOST),
+ "C02":("exploration","simhost","every entry delivered to any user state machine is compared with what any other replica applied at that index; gap-free increasing apply order; equal state at equal applied index; no two replicas hold different entries (terms) at an index both have durably committed; the code's own log/apply invariant panics are violations; shapes incl. a single voter with non-voting members and crashes biased into file system operations", SIMHOST),
  "C03":("exploration","simhost","leader per term ghost from white-box role peeks after every event; one vote per term across restarts from the frames that leave each replica", SIMHOST),
  "C04":("exploration","simhost","every frame leaving a replica is checked against the durable shadow recorded when SaveRaftState returned; after crash+restart the recovered term/vote/last index are compared with what had been promised; restart must succeed", SIMHOST),
  "C05":("exploration","simhost","clients use registered sessions and retry timed-out proposals with the same series id on any replica under loss/duplication/leader changes/snapshots/restarts with a small session LRU; every write id must reach each state machine incarnation at most once, retries that complete must carry the result of that application, unregistered/evicted sessions must be Rejected and never applied", SIMHOST),
